@@ -7,7 +7,7 @@ A flagged event / mismatch counts for property Cxx iff one of its tags starts wi
 """
 MC_WORKERS = 8
 MC_TIMEOUT = {"quick": 600, "thorough": 3000}
-PARALLEL = {"quick": 6, "thorough": 8}
+PARALLEL = {"quick": 6, "thorough": 6}
 Q, T, QT = ("quick",), ("thorough",), ("quick", "thorough")
 
 DEFAULT_ASSUMPTIONS = [
